@@ -239,6 +239,25 @@ func init() {
 			return out
 		},
 	}
+	plans["C20"] = &plan{
+		rule:        "rounds of N in {2,16,64} goroutines x GOMAXPROCS {2,16}: every goroutine runs its own seeded program on its own objects (Parse with and without reuse of its own object, copy and no-copy, valid and mutated documents on both sides of 8 KiB; ParseND; ParseNDStream with a fragmenting reader and a reuse channel; two traversal routes; Clone + Set* edits; Serialize/Deserialize in a random compression mode with a reused destination), all released together behind a barrier. Oracle 1 (race build): the Go race detector reports nothing. Oracle 2 (plain and race builds): the hash-chained transcript of every goroutine (error-ness, marshalled bytes, typed dumps of traversals, stream contents, round-tripped documents) equals the transcript of the same program run alone beforehand. The number of goroutines inside library calls at the same time and the number of overlapping pool-using (compressing) operations are counted. Distinct non-trivial = rounds (programs with >= 2 goroutines inside the library simultaneously are counted in the evidence), by round parameters",
+		assumptions: append([]string{"the race detector only sees Go code: accesses made by the assembly kernels are invisible to it (they touch per-object buffers only)"}, commonAssumptions...),
+		jobs: func(tier string) []*job {
+			return []*job{
+				{variant: "race", mode: "main", shards: 8, maxResume: 0, gomaxprocs: 16, weight: 2, memlimit: "6GiB", quickTimeout: 15 * time.Minute},
+				{variant: "plain", mode: "main", shards: 8, maxResume: 0, gomaxprocs: 16, weight: 2, memlimit: "6GiB"},
+			}
+		},
+		require: func(tier string, c, m map[string]int64, s map[string]map[string]struct{}) []string {
+			var out []string
+			if m["max_goroutines_inside_library_calls_at_once"] < 16 {
+				out = append(out, fmt.Sprintf("at most %d goroutines were inside the library at once", m["max_goroutines_inside_library_calls_at_once"]))
+			}
+			out = append(out, need(c, "pool_using_operations_that_overlapped", 100)...)
+			out = append(out, need(c, "programs", 500)...)
+			return out
+		},
+	}
 	plans["C10"] = std("documents (strings holding every byte value and every pair of escape-needing bytes, every number kind, the C02 document workload, NDJSON) fresh and after seeded histories of in-place replacements and deletions; marshalled from the root iterator (MarshalJSON and MarshalJSONBuffer with a prefix), from single-value-scoped inner iterators (AdvanceIter / NextElementBytes / FindKey), Array.MarshalJSON and Elements.MarshalJSON. Each output must be valid JSON per the reference recogniser (valid UTF-8, well-formed surrogates, roots separated by LF), denote the model document (strings byte-equal, member order, numbers numerically equal) and be a fixed point of parse+marshal; a non-finite float placed with SetFloat must make every marshaller return an error. Distinct non-trivial = marshalled tapes whose text holds a container or an escape, by (document, edit history) hash", 16,
 		func(c, m map[string]int64) []string {
 			out := need(c, "edited_tapes", 1000)
